@@ -50,6 +50,13 @@ try:
             cand = [l for l in r.stdout.strip().splitlines() if _re.search(r"\d+ (passed|failed|error)", l)]
             tail = (cand or r.stdout.strip().splitlines() or [""])[-1]
             res["tests"] = {"rc": r.returncode, "summary": tail, "wall_s": round(time.time() - t0)}
+        _old = json.load(open(os.path.join(d, "eval.json"))) if os.path.exists(os.path.join(d, "eval.json")) else {}
+        if "tests" not in res and "tests" in _old:
+            res["tests"] = _old["tests"]           # an earlier run of the repository's tests on this patch stays on record
+        if _old.get("checks") and not _old.get("detected_by") and "first_version_missed" not in _old:
+            res["first_version_missed"] = _old["checks"]
+        elif "first_version_missed" in _old:
+            res["first_version_missed"] = _old["first_version_missed"]
         res["checks"] = {}
         if "--no-checks" in args:
             checks = []
